@@ -13,7 +13,7 @@ FIXTURES = os.path.join(VERIF_DIR, "fixtures")
 
 REGISTRY: dict[str, Callable[[Run, Program], None]] = {}
 CONTROLS: dict[str, list[tuple[str, Callable[[Run, Program], object], list[tuple[str, str]]]]] = {}
-NOT_APPLICABLE = {"C01", "C10", "C13", "C15"}
+NOT_APPLICABLE = {"C01", "C10", "C15"}
 
 
 def prop(pid: str):
@@ -556,3 +556,19 @@ def check_c20(run: Run, prog: Program) -> None:
     n = polyform.rule_det(run, prog) + polyform.rule_adjugate(run, prog) + polyform.rule_inv(run, prog) + polyform.rule_hat(run, prog)
     run.stats["closed_form_obligations"] = n
     run.floor("closed-form obligations", n, 6)
+
+
+# ================================================================================================ C13
+@prop("C13")
+def check_c13(run: Run, prog: Program) -> None:
+    from geolint import polyform
+
+    run.title = "Quadric constructors produce the quadric of their defining data"
+    run.clause = (
+        "decides ONE clause of the last sentence ('area and volume return ... the textbook measures'): Circle.area, Sphere.volume and Sphere.area, "
+        "normalised as monomials in pi, the radius and the dimension (helpers such as _alpha inlined), equal pi r^2, the volume and the surface of "
+        "the n-ball. NOT decided: everything about the constructors (from_points, from_tangent, from_foci, from_crossratio, the loci of "
+        "Circle/Ellipse/Sphere/Cone/Cylinder), center, radius and foci - those are numeric identities between a constructor's matrix and an accessor."
+    )
+    n = polyform.rule_measures(run, prog)
+    run.floor("measure formulas", n, 2)
